@@ -64,6 +64,12 @@ def parsePair (cs : List Char) : Option ((Name × Pos) × List Char) := do
     pure ((n, p), r'')
   | _ => none
 
+/-- an optional single comma -/
+def skipComma (r : List Char) : List Char :=
+  match r with
+  | ',' :: t => t
+  | _ => r
+
 /-- `(?:PAIR(?:,PAIR)*,?)*` up to the closing parenthesis: pairs, each optionally
     followed by ONE comma; stops at `)` -/
 def parsePairs : Nat → List Char → Option (SigArg × List Char)
@@ -73,8 +79,7 @@ def parsePairs : Nat → List Char → Option (SigArg × List Char)
     | ')' :: _ => some ([], cs)
     | _ => do
       let (p, r) ← parsePair cs
-      let r' := match r with | ',' :: t => t | _ => r
-      let (ps, r'') ← parsePairs fuel r'
+      let (ps, r'') ← parsePairs fuel (skipComma r)
       pure (p :: ps, r'')
 
 /-- `\( … \)` -/
